@@ -19,6 +19,10 @@
 (* Variant "exists" : 5badd88 - looks inside with exists() (a directory of     *)
 (*                    the right name passes for the first file)                *)
 (* Variant "fixed"  : 53d2f22 - looks inside with is_file()                    *)
+(* Variant "probefirst" : seed R16-C05 - any path that holds the first         *)
+(*                    described file is taken for the root before names are    *)
+(*                    looked at ("recheck a renamed folder"); wrong when the   *)
+(*                    PARENT happens to hold a file at that relative path      *)
 EXTENDS Core, FiniteSets, TLC
 CONSTANTS Variant
 
@@ -40,6 +44,7 @@ Holds(fs, meta, base) ==
 Error == <<"error">>
 FindRoot(fs, meta, path) ==
     IF ~Exists(fs, path) THEN Error
+    ELSE IF Variant = "probefirst" /\ Holds(fs, meta, path) THEN path
     ELSE IF Last(path) = meta.name
     THEN LET inner == path \o <<meta.name>> IN
          IF Variant # "code" /\ Exists(fs, inner) /\ ~Holds(fs, meta, path) /\ Holds(fs, meta, inner)
@@ -63,10 +68,18 @@ PathLess(p, q) == IF p = <<>> THEN q # <<>>
                   ELSE Ord(p[1]) < Ord(q[1])
 First(S) == CHOOSE p \in S : \A q \in S \ {p} : PathLess(p, q)
 
+\* noise next to the payload: nothing, an unrelated file, or a surplus file in the PARENT at the very relative path the
+\* torrent's first file has below the root (a loose copy of track 1 lying next to the album folder)
 World(chain, kind, fset, noise) ==
     LET root == chain \o <<N>>
         files == IF kind \in {"length", "tree1"} THEN {root} ELSE {root \o f : f \in fset}
-        extra == IF noise THEN {chain \o <<"other">>} ELSE {}
+        surplus == chain \o First(fset)
+        extra == IF noise = "other" THEN {chain \o <<"other">>}
+                 \* (not when the parent itself carries the payload's name: then parent and root BOTH look like a payload
+                 \* root holding the first file, and nothing short of hashing could tell them apart)
+                 ELSE IF noise = "first" /\ kind \in {"files", "tree"} /\ chain[Len(chain)] # N
+                         /\ ~\E p \in files : Prefix(surplus, p) THEN {surplus}
+                 ELSE {}
         allf == files \cup extra
         alld == UNION {{SubSeq(p, 1, k) : k \in 1 .. (Len(p) - 1)} : p \in allf}
     IN [fs |-> [files |-> allf, dirs |-> {d \in alld : d # <<>>}],
@@ -77,7 +90,7 @@ World(chain, kind, fset, noise) ==
 VARIABLES w, done
 vars == <<w, done>>
 Init == /\ done = FALSE
-        /\ \E chain \in Chains, kind \in {"files", "tree", "length", "tree1"}, fset \in FileSets, noise \in BOOLEAN :
+        /\ \E chain \in Chains, kind \in {"files", "tree", "length", "tree1"}, fset \in FileSets, noise \in {"none", "other", "first"} :
               w = World(chain, kind, fset, noise)
 Next == done = FALSE /\ done' = TRUE /\ UNCHANGED w
 Spec == Init /\ [][Next]_vars
